@@ -9,7 +9,7 @@ from autobean_refactor.models.internal import value_properties as VP
 
 from .. import core, docexp, docs, ops, store, tree
 
-GENERIC_RAW = ['', 'Q', 'a\nb']
+GENERIC_RAW = ['', 'Q', 'a\nb', 'a\x0cb\nc', 'a\u2028b\r\r\nc\rd']
 
 
 def token_ops(root: Any) -> list[list]:
